@@ -18,3 +18,12 @@ func (pool *TransactionPool) VerifAssemblyRound() basics.Round {
 	defer pool.assemblyMu.Unlock()
 	return pool.assemblyRound
 }
+
+// VerifAssemblyState reports whether the pool holds a finished assembly result and for which round
+// (assemblyResults.ok / roundStartedEvaluating). After OnNewBlock(r) returned this is (true, r+1); the
+// scheduler checks that before it lets anything wait for the pool (see VerifAssemblyRound).
+func (pool *TransactionPool) VerifAssemblyState() (bool, basics.Round) {
+	pool.assemblyMu.Lock()
+	defer pool.assemblyMu.Unlock()
+	return pool.assemblyResults.ok, pool.assemblyResults.roundStartedEvaluating
+}
